@@ -147,8 +147,9 @@ ApiFails(ev, before) ==
     (IF (valid => ev.outcome = "ok") /\ ev.wl # Hpwl(exp)
      THEN {F_("C09", <<"wirelength of the state defined by the calls", ev.kind, ev.wl, Hpwl(exp)>>, "api-hpwl")} ELSE {}) \cup
     \* C15 on the state the calls define: flags as given by the caller, whatever the order of the calls
-    (IF (valid => ev.outcome = "ok") /\ (RowSet(ev.free) # FreeOfCircuit(exp, {}) \/ Cardinality(RowSet(ev.free)) # Len(ev.free))
-        /\ Cardinality(RowSet(exp.rows)) = Len(exp.rows)
+    \* (rows given by the caller may overlap one another: two rows can then yield the same free segment, so the comparison is on the set
+    \* of segments and on their number, row by row)
+    (IF (valid => ev.outcome = "ok") /\ (RowSet(ev.free) # FreeOfCircuit(exp, {}) \/ Len(ev.free) # FreeCount(exp))
      THEN {F_("C15", <<"free rows of the state defined by the calls", ev.kind, RowSet(ev.free), "expected", FreeOfCircuit(exp, {})>>, "api-free")} ELSE {}) \cup
     (IF (valid => ev.outcome = "ok") /\ (ev.pw # [i \in 1..n |-> PW(exp.cells[i])] \/ ev.ph # [i \in 1..n |-> PH(exp.cells[i])])
      THEN {F_("C09", <<"placed sizes of the state defined by the calls", ev.kind>>, "api-placed-size")} ELSE {})
